@@ -275,3 +275,18 @@ def run(ck, prog):
 
 
 EXPLANATION += " PCA::fit reaches neither MatrixStats::{var, std} nor BaseVector::{var, std} (the one-pass variance recorded under C03)."
+
+
+
+# ------------------------------------------------------------------ the EVD path at every data scale: E4 on the symmetric eigen-solver (C02's binding)
+_run_pre_e4evd = run
+
+
+def run(ck, prog):
+    _run_pre_e4evd(ck, prog)
+    from props import C01
+    C01.run_e4(ck, prog, r"^linalg::evd::(tred2|tql2)$", ["tred2", "tql2"], floor=4)
+
+
+EXPLANATION += (" EVD path: tred2 / tql2 compare data only with zero or with data-derived scales (E4; a `scale < epsilon` skip test drops the "
+                "couplings of data measured in small units).")
